@@ -136,16 +136,23 @@ const CRLF: &[u8] = b"\r\n";
 
 /// Replaces all CRLF with LF
 pub fn replace_crlf<'a>(bytes: &'a [u8]) -> Cow<'a, [u8]> {
-    if let Some(index) = bytes.windows(2).position(|window| window == CRLF) {
-        [
-            Cow::from(&bytes[0..index]),
-            replace_crlf(&bytes[index + 1..]),
-        ]
-        .concat()
-        .into()
-    } else {
-        bytes.into()
+    let Some(first) = bytes.windows(2).position(|window| window == CRLF) else {
+        return bytes.into();
+    };
+
+    // copy everything but the CR of each CRLF pair (iteratively: the output
+    // may have any number of lines)
+    let mut replaced = Vec::with_capacity(bytes.len());
+    replaced.extend_from_slice(&bytes[0..first]);
+    let mut index = first;
+    while index < bytes.len() {
+        if bytes[index] == b'\r' && bytes.get(index + 1) == Some(&b'\n') {
+            index += 1;
+        }
+        replaced.push(bytes[index]);
+        index += 1;
     }
+    replaced.into()
 }
 
 /// Like the [`format`] with an added new line character
